@@ -17,6 +17,8 @@ for d in sorted(root.iterdir()):
         he = m.get("harmless_evaluation", {})
         res = [("checks " + ", ".join(he.get("checks", [])) + ": " + ("**no alarm**" if not he.get("alarms") else "alarm (`translator-unsupported … no-failing-input-found`) in " + ", ".join(sorted(he["alarms"])))) if he else "not evaluated"]
         m = {**m, "property": "(harmless)", "needs": m.get("why_harmless", "")}
+    if m.get("scope_note"):
+        res.append("scope: " + m["scope_note"])
     clean = lambda s: " ".join(str(s).split()).replace("|", "/")  # noqa: E731
     print(f"| `seeded/{d.name}` | {m.get('property')} | {clean(m.get('summary', ''))[:260]} | {clean(m.get('needs', ''))[:200]} | {'; '.join(res)} |")
 
